@@ -95,6 +95,10 @@ pub struct ScriptReader {
     pub reads: u64,
     pub piece_log: Vec<usize>,
     pub ended: bool,
+    /// How many times the error is delivered (None = on every further read). A source
+    /// whose error is one-shot goes on with `data[..resume_end_at]` and then EOF.
+    pub errors_left: Option<u32>,
+    pub resume_end_at: usize,
 }
 impl ScriptReader {
     pub fn new(data: Vec<u8>, pieces: Pieces) -> Self {
@@ -110,6 +114,8 @@ impl ScriptReader {
             reads: 0,
             piece_log: Vec::new(),
             ended: false,
+            errors_left: None,
+            resume_end_at: 0,
         }
     }
     pub fn remaining(&self) -> &[u8] {
@@ -126,13 +132,28 @@ impl AsyncRead for ScriptReader {
             return Poll::Pending;
         }
         self.reads += 1;
-        let avail = self.end_at - self.pos;
+        let mut avail = self.end_at - self.pos;
         if avail == 0 {
             self.ended = true;
-            return match &self.end {
-                StreamEnd::Eof => Poll::Ready(Ok(0)),
-                StreamEnd::Error(k) => Poll::Ready(Err(io::Error::new(*k, "simulated read error"))),
-            };
+            match (self.end.clone(), self.errors_left) {
+                (StreamEnd::Eof, _) => return Poll::Ready(Ok(0)),
+                (StreamEnd::Error(_), Some(0)) => {
+                    // the one-shot error is spent: the source goes on
+                    if self.resume_end_at > self.end_at {
+                        self.end_at = self.resume_end_at.min(self.data.len());
+                        avail = self.end_at - self.pos;
+                    }
+                    if avail == 0 {
+                        return Poll::Ready(Ok(0));
+                    }
+                }
+                (StreamEnd::Error(k), left) => {
+                    if let Some(n) = left {
+                        self.errors_left = Some(n - 1);
+                    }
+                    return Poll::Ready(Err(io::Error::new(k, "simulated read error")));
+                }
+            }
         }
         let want = match &self.pieces {
             Pieces::Whole => avail,
